@@ -24,7 +24,7 @@ Proof. intros [-> | [-> | [-> | ->]]] t; reflexivity. Qed.
 Lemma render_obj_stream_shape num gen d data c :
   exists sepA sepB s1 cd s2 e0 e1 s3 e,
     is_sep1 sepA /\ is_sep1 sepB /\ is_sep s1 /\ is_sep s2 /\ is_sep s3 /\
-    eol_before_data e0 /\ eol_after_data e1 /\ eolch e /\
+    eol_before_data e0 /\ sep_after_data e1 /\ eolch e /\
     fst (render_obj_stream num gen d data c) =
       fmt_N num ++ sepA ++ fmt_N gen ++ sepB ++ kw_obj ++ s1
       ++ fst (rv (VDict (d ++ [(k_Length, VInt (Z.of_nat (length data)))])) cd)
@@ -37,11 +37,11 @@ Proof.
   destruct (rv (VDict (d ++ [(k_Length, VInt (Z.of_N (len data)))])) c3) as [b c4] eqn:Eb.
   destruct (sepc false c4) as [s2 c5] eqn:E2.
   destruct (pick 2 c5) as [k0 c6].
-  destruct (pick 3 c6) as [k1 c7].
+  destruct (pick 4 c6) as [k1 c7].
   destruct (sepc true c7) as [s3 c8] eqn:E3.
   pose proof (eolc_cases c8) as Hee. destruct (eolc c8) as [e c9]. cbn [fst] in Hee.
   exists sA, sB, s1, c3, s2, (if (k0 =? 0)%N then [10%N] else [13%N; 10%N]),
-         (if (k1 =? 0)%N then [10%N] else if (k1 =? 1)%N then [13%N; 10%N] else [13%N]), s3, e.
+         (if (k1 =? 0)%N then [10%N] else if (k1 =? 1)%N then [13%N; 10%N] else if (k1 =? 2)%N then [13%N] else []), s3, e.
   repeat split.
   - pose proof (sepc_true_is_sep1 c) as H. rewrite EA in H. apply H.
   - pose proof (sepc_true_is_sep1 c) as H. rewrite EA in H. apply H.
@@ -51,7 +51,8 @@ Proof.
   - pose proof (sepc_is_sep false c4) as H. rewrite E2 in H. exact H.
   - pose proof (sepc_is_sep true c7) as H. rewrite E3 in H. exact H.
   - destruct (k0 =? 0)%N; constructor.
-  - destruct (k1 =? 0)%N; [constructor|]. destruct (k1 =? 1)%N; constructor.
+  - destruct (k1 =? 0)%N; [right; constructor|]. destruct (k1 =? 1)%N; [right; constructor|].
+    destruct (k1 =? 2)%N; [right; constructor|left; reflexivity].
   - exact Hee.
   - cbn [fst]. unfold len in Eb. rewrite nat_N_Z in Eb. rewrite Eb. cbn [fst].
     rewrite <- !app_assoc. reflexivity.
@@ -74,7 +75,7 @@ Lemma render_xref_stream_shape xnum size ents prev extra c xb subs d c' :
   exists w0 w1 w2 sepA sepB s1 cd s2 e0 e1 s3 e,
     w_of_dict d = Some (w0, w1, w2) /\
     is_sep1 sepA /\ is_sep1 sepB /\ is_sep s1 /\ is_sep s2 /\ is_sep s3 /\
-    eol_before_data e0 /\ eol_after_data e1 /\ eolch e /\
+    eol_before_data e0 /\ sep_after_data e1 /\ eolch e /\
     xb = fmt_N xnum ++ sepA ++ fmt_N 0 ++ sepB ++ kw_obj ++ s1
          ++ fst (rv (VDict ((d ++ prev_entry (opt_prev prev)) ++ [(k_Length, VInt (Z.of_nat (length (encode_stm_subs w0 w1 w2 subs))))])) cd)
          ++ s2 ++ kw_stream ++ e0 ++ encode_stm_subs w0 w1 w2 subs ++ e1 ++ Seq.kw_endstream ++ s3 ++ Seq.kw_endobj ++ e.
@@ -119,7 +120,7 @@ Definition text_of (sec : rsec) (prev : option Z) (xnum : N) (text : bytes) : Pr
     exists w0 w1 w2 sepA sepB s1 cd s2 e0 e1 s3,
       w_of_dict d = Some (w0, w1, w2) /\
       is_sep1 sepA /\ is_sep1 sepB /\ is_sep s1 /\ is_sep s2 /\ is_sep s3 /\
-      eol_before_data e0 /\ eol_after_data e1 /\
+      eol_before_data e0 /\ sep_after_data e1 /\
       text = fmt_N xnum ++ sepA ++ fmt_N 0 ++ sepB ++ kw_obj ++ s1
              ++ fst (rv (VDict ((d ++ prev_entry prev) ++ [(k_Length, VInt (Z.of_nat (length (encode_stm_subs w0 w1 w2 subs))))])) cd)
              ++ s2 ++ kw_stream ++ e0 ++ encode_stm_subs w0 w1 w2 subs ++ e1 ++ Seq.kw_endstream ++ s3 ++ Seq.kw_endobj
